@@ -479,10 +479,12 @@ def c19(ctx):
             d = fam_encode.run_case(ctx, case)
             impl = fam_encode.impl_run(cfg, case["stmts"], case["ns"], case["sink"], "stream_frames", case)
         ctx.report.evaluations += 1
-        if d:
+        if d and d.get("property_violation"):
             out.append(d)
             continue
         if impl["raised"] or not impl["frames"]:
+            if d:
+                out.append(d)
             continue
         data = fam_encode.delimited(impl["frames"])
         au = audit_reply(ctx.driver.ask("AU " + hx(data)))
@@ -503,8 +505,10 @@ def c19(ctx):
                     ctx.report.nontrivial.add((cfg.tok(), tuple(core_stmt_tok(s) for s in case["stmts"])))
         if pv:
             out.append({"family": "EN" if not rd else "ER", "entry": "stream_frames", "cfg": cfg.as_json(), "stmts": [core_stmt_tok(s) for s in case["stmts"]],
-                        "ns": case.get("ns", []), "sink": case.get("sink", False), "data": case.get("data"), "corresponds": True, "impl": hx(data)[:400], "model": str(au),
+                        "ns": case.get("ns", []), "sink": case.get("sink", False), "data": case.get("data"), "corresponds": d is None, "impl": hx(data)[:400], "model": str(au),
                         "property_violation": {"what": pv}, "signature": {}})
+        elif d:
+            out.append(d)
         if i < 2:
             ctx.report.sample({"family": "EN/audit", "cfg": cfg.as_json(), "audit": au})
     return out
